@@ -23,7 +23,7 @@ def run_demo(wt, outdir, env):
         shutil.copy(os.path.join(outdir, "demo.rs"), os.path.join(wt, "bitar/tests/zz_demo.rs"))
         rc, out = sh("cargo test -p bitar --offline --features compress --test zz_demo 2>&1 | tail -30", cwd=wt, env=env)
         os.remove(os.path.join(wt, "bitar/tests/zz_demo.rs"))
-        ok = "test result: ok" in out and "FAILED" not in out and "running 0 tests" not in out and "error" not in out.split("test result")[0][-200:]
+        ok = "test result: ok" in out and "FAILED" not in out and "running 0 tests" not in out and not any(e in out.split("test result")[0][-400:] for e in ("error[", "error:", "could not compile"))
         return ok, out[-1500:]
     for name, runner in (("demo.py", "python3"), ("demo.sh", "bash")):
         p = os.path.join(outdir, name)
